@@ -28,7 +28,7 @@ def main(tier, seed, args):
                        'stored Succeeded records found at start satisfy the representation invariant (preimage of the key hash); the write side is checked',
                        'hex encoding of the hash in datastore keys is injective']
     rep.trusted = ['mirsym', 'z3', 'node model', 'tokio contracts', 'invoice oracle (lightning-invoice parse/hash as uninterpreted attributes)']
-    budget = 110 if tier == 'quick' else 1500
+    budget = 440 if tier == 'quick' else 3000
     configs = []
     cfg, pc = cfg_hashes(1, 'free_absent')
     cfg['pay_outcomes'] = ('complete', 'pending', 'failed', 'failed_warning', 'error:210')
